@@ -69,6 +69,10 @@ const (
 	// registrations of a global variable's cell by a loaded file's top-level scope
 	opRegisterGlobal  // vm.RegisterGlobalContext(vars, ctx) with a context of the harness (cell known)
 	opLoadGlobalsFile // vm.LoadAndRun(file) of a generated file whose top level assigns the variable
+	// class lookups through a spelling that differs in case from the registered name (the VM
+	// folds case for classes only); progOp.Var selects one of 2^13 spellings
+	opGetClassCV
+	opGetOrLoadClassCV
 	opAllClasses    // AllClasses(): a reader of the whole table (not part of the histories)
 	opAllFuncs
 	nOpKinds
@@ -76,7 +80,8 @@ const (
 
 var opNames = [...]string{"AddClass", "AddInterface", "AddFunc", "GetClass", "GetInterface", "GetFunc", "SetConstant", "GetConstant",
 	"EnsureGlobalZVal", "GetOrLoadClass", "GetOrLoadInterface", "LoadPkg", "GetFunc\\", "GetConstant\\",
-	"GetOrLoadClass\\", "GetOrLoadInterface\\", "LoadPkg\\", "RegisterGlobalContext", "LoadAndRun(file with top-level variable)", "AllClasses", "AllFuncs"}
+	"GetOrLoadClass\\", "GetOrLoadInterface\\", "LoadPkg\\", "RegisterGlobalContext", "LoadAndRun(file with top-level variable)",
+	"GetClass(other-case spelling)", "GetOrLoadClass(other-case spelling)", "AllClasses", "AllFuncs"}
 
 // plainKind maps the "\\name" form of a lookup to the plain form (same sequential meaning).
 func plainKind(kind int) int {
@@ -91,6 +96,10 @@ func plainKind(kind int) int {
 		return opGetOrLoadInterface
 	case opLoadPkgBS:
 		return opLoadPkg
+	case opGetClassCV:
+		return opGetClass
+	case opGetOrLoadClassCV:
+		return opGetOrLoadClass
 	}
 	return kind
 }
@@ -110,7 +119,7 @@ var tabNames = [...]string{"class+interface", "func", "const", "global"}
 func opTable(kind int) int {
 	switch kind {
 	case opAddClass, opAddInterface, opGetClass, opGetInterface, opGetOrLoadClass, opGetOrLoadInterface, opLoadPkg, opAllClasses,
-		opGetOrLoadClassBS, opGetOrLoadInterfaceBS, opLoadPkgBS:
+		opGetOrLoadClassBS, opGetOrLoadInterfaceBS, opLoadPkgBS, opGetClassCV, opGetOrLoadClassCV:
 		return tabType
 	case opAddFunc, opGetFunc, opGetFuncBS, opAllFuncs:
 		return tabFunc
@@ -127,6 +136,7 @@ func isAdd(kind int) bool {
 type progOp struct {
 	Kind uint8
 	Name uint16
+	Var  uint16 // spelling selector of the other-case lookups
 }
 
 // genPrograms: the per-goroutine operation lists. All goroutines sweep the name pool in the
@@ -144,7 +154,7 @@ func genPrograms(c caseSpec) [][]progOp {
 		opGetClass, opGetClass, opGetClass, opGetInterface, opGetInterface, opGetFunc, opGetFunc, opGetFunc,
 		opGetConstant, opGetConstant, opEnsureGlobal, opEnsureGlobal, opGetOrLoadClass, opGetOrLoadInterface, opLoadPkg,
 		opGetFuncBS, opGetFuncBS, opGetConstantBS, opGetOrLoadClassBS, opGetOrLoadInterfaceBS, opLoadPkgBS,
-		opRegisterGlobal, opLoadGlobalsFile}
+		opRegisterGlobal, opLoadGlobalsFile, opGetClassCV, opGetClassCV, opGetClassCV, opGetOrLoadClassCV}
 	for g := 0; g < c.G; g++ {
 		p := make([]progOp, 0, per)
 		for i := 0; i < per; i++ {
@@ -163,7 +173,7 @@ func genPrograms(c caseSpec) [][]progOp {
 			if n >= c.Names {
 				n = c.Names - 1
 			}
-			p = append(p, progOp{uint8(k), uint16(n)})
+			p = append(p, progOp{uint8(k), uint16(n), uint16(r.Intn(1 << 13))})
 		}
 		progs[g] = p
 	}
@@ -260,7 +270,37 @@ func tokOf(v any) int {
 
 // name spelling: distinct under case folding, distinct between tables, not used by the
 // standard libraries.
-func typeName(i int) string   { return fmt.Sprintf("Vx10t%d", i) }
+func typeName(i int) string   { return fmt.Sprintf("Vx10tKlassName%d", i) }
+
+// caseVariant: the name with the case of its letters flipped as selected by mask; never the
+// name itself.
+func caseVariant(name string, mask int) string {
+	b := []byte(name)
+	flip := func(i int) {
+		switch c := b[i]; {
+		case c >= 'a' && c <= 'z':
+			b[i] = c - 32
+		case c >= 'A' && c <= 'Z':
+			b[i] = c + 32
+		}
+	}
+	bit, first := 0, -1
+	for i, c := range b {
+		if (c >= 'a' && c <= 'z') || (c >= 'A' && c <= 'Z') {
+			if first < 0 {
+				first = i
+			}
+			if mask>>(bit%13)&1 == 1 {
+				flip(i)
+			}
+			bit++
+		}
+	}
+	if string(b) == name && first >= 0 {
+		flip(first)
+	}
+	return string(b)
+}
 func funcName(i int) string   { return fmt.Sprintf("vx10f%d", i) }
 func constName(i int) string  { return fmt.Sprintf("VX10K%d", i) }
 func globalName(i int) string { return fmt.Sprintf("vx10g%d", i) }
@@ -507,6 +547,14 @@ func runRegistry(c caseSpec, dir string) workerResult {
 					}
 				case opLoadPkg:
 					if v, acl := lk.LoadPkg(typeName(n)); acl == nil && v != nil {
+						r.Out = tokOf(v)
+					}
+				case opGetClassCV:
+					if v, ok := lk.GetClass(caseVariant(typeName(n), int(op.Var))); ok {
+						r.Out = nz1(tokOf(v))
+					}
+				case opGetOrLoadClassCV:
+					if v, acl := lk.GetOrLoadClass(caseVariant(typeName(n), int(op.Var))); acl == nil && v != nil {
 						r.Out = tokOf(v)
 					}
 				case opGetOrLoadClassBS:
